@@ -1056,6 +1056,16 @@ def inline_new_module_constants(repo) -> List[str]:
                 if len(st.targets) == 1 and isinstance(st.targets[0], ast.Name) and st.targets[0].id not in known and not _has_impure_call(st.value) \
                         and not isinstance(st.value, (ast.Lambda, ast.Dict, ast.DictComp)):
                     cands[st.targets[0].id] = st.value
+                if len(st.targets) == 1 and isinstance(st.targets[0], ast.Tuple) and isinstance(st.value, ast.Tuple) and len(st.targets[0].elts) == len(st.value.elts):
+                    # A, B = 12, 13
+                    for t_, v_ in zip(st.targets[0].elts, st.value.elts):
+                        if isinstance(t_, ast.Name) and t_.id not in known and isinstance(v_, ast.Constant):
+                            cands[t_.id] = v_
+            elif isinstance(st, ast.AnnAssign) and isinstance(st.target, ast.Name) and st.value is not None:
+                # NAME: int = 12  - an annotated constant
+                counts[st.target.id] = counts.get(st.target.id, 0) + 1
+                if st.target.id not in known and not _has_impure_call(st.value) and not isinstance(st.value, (ast.Lambda, ast.Dict, ast.DictComp)):
+                    cands[st.target.id] = st.value
             elif isinstance(st, (ast.AugAssign, ast.AnnAssign)) and isinstance(st.target, ast.Name):
                 counts[st.target.id] = counts.get(st.target.id, 0) + 2
         cands = {k: v for k, v in cands.items() if counts.get(k, 0) == 1}
